@@ -183,6 +183,15 @@ def corpus():
               _call('tC', [['see']], hook_yield=0)], 1, []),
         _arr([_call('tA', [['hook_change', 'add_after'], ['yield_to', 1], ['hook_change', 'remove_after'], ['see']]),
               _call('tC', [['see'], ['hdr', 'X-A', 'tCh']], after_yield=0)], 1, []),
+        # headers set before a mapped body error (the 400 object is shared by all requests): nobody else gets them
+        _arr([_call('tA', [['hdr', 'Access-Control-Allow-Origin', 'tAorigin'], ['hdr', 'Vary', 'tAvary'], ['body_read']],
+                    method='POST', form='{"tA": bad', json_bad=True),
+              _call('tC', [['see'], ['body_read']], method='POST', form='{"tC": bad', json_bad=True, accept='application/json')],
+             0, [], cfg=['max30']),
+        # an environ assignment with a non-str key by one request; cache-invalidating assignments by another afterwards
+        _arr([_call('tA', [['req_set_odd_key'], ['see']]),
+              _call('tC', [['see'], ['req_set', 'QUERY_STRING', 'n=tCn'], ['see'], ['req_set', 'HTTP_COOKIE', 'c2=tCc2'], ['see']])],
+             0, []),
         # answers without a body whose iterable has to be closed
         _arr([_call('tA', [['see'], ['gen', 2]], method='HEAD'), _call('tC', [['status', 204], ['ret', 'file']]),
               _call('tE', [['status', 304], ['gen', 1]])], 0, [[500, 1], [500, 2]]),
@@ -320,7 +329,10 @@ def _gen_arr(rng):
             kw[kind] = True
             if rng.random() < 0.6:
                 kw['accept'] = 'application/json'
-            script = [['see']] * rng.randrange(0, 2) + [['hdr', 'X-A', tok + 'h']] * rng.randrange(0, 2) + [['body_read']]
+            # headers (CORS / Vary among them) set before the body error: the error answer carries none of them
+            pre = [['hdr', rng.choice(['X-A', 'Access-Control-Allow-Origin', 'Vary', 'Access-Control-Max-Age']), tok + 'h']
+                   for _ in range(rng.randrange(0, 3))]
+            script = [['see']] * rng.randrange(0, 2) + pre + [['body_read']]
             calls.append(_call(tok, script, **kw))
             continue
         if rng.random() < 0.25:
